@@ -30,8 +30,10 @@ PROBES = [
     "batch-committed",
     "snapshot-read",
     "operation-ended-by-storage-failure",
+    "commit-ended-by-storage-failure",
+    "commit-failed-after-deletes-reached-the-store",
 ]
-FAULTS = ["batch-abort", "batch-abort-base", "crash-reopen", "restart-regenerated-counts", "write-fail-applied", "write-fail-not-applied"]
+FAULTS = ["batch-abort", "batch-abort-base", "crash-reopen", "restart-regenerated-counts", "write-fail-applied", "write-fail-not-applied", "delete-fail-applied", "delete-fail-not-applied"]
 COMPONENTS = {
     "real": ["trie.hexary.HexaryTrie get/exists/__getitem__/__contains__/set/delete/__setitem__/__delitem__", "squash_changes", "at_root", "trie.utils.db.ScratchDB"],
     "stub": ["SimDB mapping (the disk)", "writer / reader / batch / operator client actors"],
@@ -70,6 +72,26 @@ class World(HWorld):
             model.clear()
             model.update(after)
         self.st.probe("operation-ended-by-storage-failure")
+        return "failed:" + type(exc).__name__
+
+    def pre_commit(self, h, cmd):
+        self._before = h.trie.root_hash
+
+    def commit_raised(self, h, cmd, exc):
+        """A storage failure ended the commit of a batch.  If buffered deletes of a pruning
+        trie had already reached the store, nodes of the old trie are gone and nothing is
+        promised (C05 confines itself to non-pruning tries): the run ends.  If only
+        additions had reached it, the old trie is intact: the handle keeps its root, still
+        is a map of the contents before the batch, and later calls are served."""
+        if not self.fired:
+            return super().commit_raised(h, cmd, exc)
+        if self.db.dels_before_fire > 0 or "delete-fail-applied" in self.fired or "delete-fail-not-applied" in self.fired:
+            self.stop = True
+            self.st.probe("commit-failed-after-deletes-reached-the-store")
+            return "failed-broken:" + type(exc).__name__
+        if h.trie.root_hash != self._before:
+            self.viol("lookup-mismatch", f"the commit of a batch was ended by a storage failure ({exc!r}) but the handle's root moved")
+        self.st.probe("commit-ended-by-storage-failure")
         return "failed:" + type(exc).__name__
 
     def after(self, h, cmd, outcome):
@@ -136,6 +158,12 @@ def generate(rng):
         for c in cmds:
             if c["op"] in ("set", "del", "sete") and c.get("on") == "live" and rng.random() < 0.1:
                 c["fw"] = [rng.randint(1, 5), rng.randrange(2), rng.choice("EKOB")]
+            elif prune and c["op"] in ("set", "del", "sete") and c.get("on") == "live" and "vh" not in c and rng.random() < 0.1:
+                # the store fails while the trie prunes what the operation replaced
+                c["fd"] = [rng.randint(1, 3), rng.randrange(2)]
+            elif c["op"] == "bcommit" and rng.random() < 0.3:
+                # ... or while a batch is being committed
+                c["fw"] = [rng.randint(1, 4), rng.randrange(2), rng.choice("EKOB")]
     cmds.append({"op": "readback"})
     return {"prop": ID, "cfg": {"prune": prune, "cache": cache, "rc": rng.choice(["defaultdict", "defaultdict", "counter"]), "store": rng.choice(["min", "min", "dict"]), "probe": [hx(k) for k in probes]}, "cmds": cmds}
 
